@@ -200,6 +200,21 @@ def run_schedule(samples, sched_roles, workdir: Path, pre: str = ""):
             return proc
 
     proc = _FakeProc(samples)
+    # file-system calls made through pathlib on the peak file (unlink / rename / replace / touch / write_text) are
+    # scheduling points of the writer as well
+    real_path_ops = {k: getattr(Path, k) for k in ("unlink", "rename", "replace", "write_text")}
+
+    def _gate_path(opname):
+        real = real_path_ops[opname]
+
+        def op(self_, *a, **kw):
+            w = _cur()
+            if w is not None and self_.name.startswith("max-rss.txt"):
+                w.gate(f"{opname}:{self_.name}")
+            return real(self_, *a, **kw)
+        return op
+    for k_ in real_path_ops:
+        setattr(Path, k_, _gate_path(k_))
     mem.open = _gated_open
     mem.os = _OsProxy()
     mem.time = TimeProxy()
@@ -257,6 +272,8 @@ def run_schedule(samples, sched_roles, workdir: Path, pre: str = ""):
         else:
             mem.open = real_open
         mem.os, mem.time, mem.psutil = real_os, real_time, real_psutil
+        for k_, v_ in real_path_ops.items():
+            setattr(Path, k_, v_)
     proto = "truncate" if any(t == "open:max-rss.txt" for t in trace) else "rename"
     return results, "".join(model_sched), trace, proto
 
